@@ -93,8 +93,11 @@ def finish(ctx: CheckContext, t0: float, seed: int = 0) -> int:
             ctx.error(f"control '{c['name']}' expected {c['expected']} but rule reported {c['got']}")
 
     status = 0
-    os.makedirs(os.path.join(VERIF, "evidence"), exist_ok=True)
-    replay_dir = os.path.join(VERIF, "evidence", "replay")
+    # evidence of runs against a scratch copy (self-tests, seeded mutants) never overwrites the real evidence
+    ev_dir = os.environ.get("OPSTATIC_EVIDENCE_DIR") or (os.path.join(VERIF, "evidence") if not os.environ.get("OPSTATIC_REPO")
+                                                          else os.path.join("/tmp", "opstatic_scratch_evidence", str(os.getpid())))
+    os.makedirs(ev_dir, exist_ok=True)
+    replay_dir = os.path.join(ev_dir, "replay")
     for o in known_hit:
         k = known_keys[(o.rule, o.key)]
         print(f"KNOWN-FINDING: property={ctx.prop} {o.rule} {o.key} -- {k.get('what', o.message)}")
@@ -156,7 +159,7 @@ def finish(ctx: CheckContext, t0: float, seed: int = 0) -> int:
         "wall_s": round(time.time() - t0, 3),
         "violations": len(new_viol),
     }
-    with open(os.path.join(VERIF, "evidence", f"{ctx.prop}.json"), "w") as f:
+    with open(os.path.join(ev_dir, f"{ctx.prop}.json"), "w") as f:
         json.dump(ev, f, indent=1, default=str)
     print(f"[{ctx.prop}] tier={ctx.tier} obligations={len(ctx.obligations)} discharged={discharged} "
           f"known={len(known_hit)} new_violations={len(new_viol)} errors={len(ctx.errors)} "
